@@ -10,7 +10,7 @@ for d in sorted(glob.glob('/verif/seeded/*/')):
         if l.startswith('VIOLATION'):
             r=l.split('replay=')[1].split(' ')[0]
             obls.append(os.path.basename(r).rsplit('-',1)[0][-60:])
-    rows.append((j['property'],name,'detected' if j.get('check_detects') else '**missed**',len(obls),obls[0] if obls else ''))
+    rows.append((j['property'],name,'detected' if j.get('check_detects') else ('thorough tier only' if j.get('thorough_detects') else '**missed**'),len(obls),obls[0] if obls else ''))
 out=['| property | seeded change (directory under /verif/seeded) | quick check | failing obligations | first failing obligation (file name tail) |','|---|---|---|---|---|']
 for r in rows: out.append('| %s | %s | %s | %d | `%s` |'%r)
 p='/verif/DESIGN.md'; c=open(p).read()
